@@ -429,6 +429,11 @@ class Interp:
             if f.attr in ai.no_inline:
                 return None
             return self.inline(e, f.attr, argv, kwv, st)
+        if isinstance(f, ast.Attribute) and is_self_attr(f.value, '_logger'):
+            parts = []
+            for a in list(e.args) + [k.value for k in e.keywords]:
+                parts += self.secret_parts(a, st)
+            self.ev_event('log', e, level=f.attr, secrets=parts)
         # receiver first (events on attribute reads of the receiver)
         recv = None
         if isinstance(f, ast.Attribute):
@@ -515,6 +520,8 @@ class Interp:
                 return None
             if f.attr == 'get' and isinstance(recv, V) and recv.tag == 'dictkeys':
                 return None
+            if f.attr == 'get' and isinstance(recv, V) and recv.tag == 'cryptoresult':
+                return recv
             if f.attr == 'keys' and isinstance(recv, V) and recv.tag == 'dictkeys':
                 return V('list', recv.a, False)
             if f.attr == 'count' and isinstance(recv, V) and recv.tag == 'proj':
@@ -573,6 +580,65 @@ class Interp:
                 return Obj(exact or ts, frozenset(['PRE_ACTIVE']) if has_state else STATES, frozenset(), 'fresh')
             return V('piepart', cn)
         return None
+
+    SAFE_OBJ_ATTRS = {'unique_identifier', 'object_type', '_object_type', 'state', 'names', 'operation_policy_name', 'cryptographic_algorithm',
+                      'cryptographic_length', 'key_format_type', 'certificate_type', 'initial_date', 'sensitive', 'cryptographic_usage_masks',
+                      'data_type', 'opaque_type', 'name', '_owner'}
+
+    def secret_parts(self, e, st):
+        """Sub-expressions of e whose abstract value is secret-bearing: a whole managed object (its repr prints the value), an object's
+        .value, a crypto-engine result, a whole payload / core secret.  Sanitised: len(), type(), safe attributes of an object."""
+        out = []
+
+        def walk(x):
+            if isinstance(x, ast.Call):
+                fn = call_name(x) or ''
+                if fn in ('len', 'type', 'id', 'isinstance', 'bool'):
+                    return
+                if isinstance(x.func, ast.Attribute):
+                    walk(x.func.value)
+                for a in x.args:
+                    walk(a)
+                for k in x.keywords:
+                    walk(k.value)
+                return
+            if isinstance(x, ast.Attribute):
+                v = self.ev_quiet(x, st)
+                b = self.ev_quiet(x.value, st)
+                if isinstance(b, Obj):
+                    if x.attr in self.SAFE_OBJ_ATTRS:
+                        return
+                    out.append(('field %s of a managed object' % x.attr, U(x)))
+                    return
+                if isinstance(v, V) and v.tag in ('cryptoresult', 'core'):
+                    out.append((v.tag, U(x)))
+                    return
+                if isinstance(b, V) and b.tag == 'payload' and x.attr in ('data', 'iv_counter_nonce', 'auth_additional_data', 'auth_tag', 'signature_data', 'secret', 'managed_object',
+                                                                          'derivation_parameters', 'mac_data', 'credential'):
+                    out.append(('payload field %s' % x.attr, U(x)))
+                    return
+                if isinstance(b, V) and b.tag == 'payload':
+                    return          # a non-secret field of the payload (identifiers, enumerations, counts)
+                walk(x.value)
+                return
+            if isinstance(x, ast.Name):
+                v = st.env.get(x.id)
+                if isinstance(v, Obj):
+                    out.append(('whole managed object (repr/str print the value)', x.id))
+                elif isinstance(v, V) and v.tag == 'proj' and v.a == 'value':
+                    out.append(('value of a managed object', x.id))
+                elif isinstance(v, V) and v.tag in ('cryptoresult', 'core', 'payload'):
+                    out.append((v.tag, x.id))
+                elif isinstance(v, V) and v.tag == 'list' and isinstance(v.a, Obj):
+                    out.append(('list of managed objects', x.id))
+                return
+            if isinstance(x, ast.Lambda):
+                return
+            for c in ast.iter_child_nodes(x):
+                if isinstance(c, (ast.expr, ast.keyword, ast.comprehension)):
+                    walk(c.value if isinstance(c, ast.keyword) else c)
+        walk(e)
+        return out
 
     def ev_quiet(self, e, st):
         """Evaluate without emitting events (second look at an already evaluated expression)."""
@@ -681,6 +747,22 @@ class Interp:
         rv = None
         first = True
         dirty, commits, after = st.dirty, st.commits, st.after
+        # correlation between "returns None" and the attribute-name parameter (getter arms returning constant None)
+        split = None
+        for p, a in amap.items():
+            if isinstance(a, ast.Name) and isinstance(st.env.get(a.id), Name):
+                nn, on = set(), set()
+                for v, s2 in sub.returns:
+                    pv_ = s2.env.get(p)
+                    if not isinstance(pv_, Name):
+                        nn = on = None
+                        break
+                    if isinstance(v, V) and v.tag == 'const' and v.a is None:
+                        nn |= pv_.names
+                    else:
+                        on |= pv_.names
+                if nn and on is not None and nn != on:
+                    split = (a.id, frozenset(nn), frozenset(on))
         for v, s2 in sub.returns:
             rv = v if first else join_val(rv, v)
             first = False
@@ -692,6 +774,8 @@ class Interp:
                 if isinstance(a, ast.Name) and isinstance(s2.env.get(p), Obj) and isinstance(st.env.get(a.id), Obj):
                     pass
         st.dirty, st.commits, st.after = dirty, commits, after
+        if split is not None and not (isinstance(rv, V) and rv.tag == 'proj'):
+            return V('retsplit', split, None)
         if isinstance(rv, V) and rv.tag == 'proj':
             # projections of callee parameters -> caller variables
             p2c = {p: a.id for p, a in amap.items() if isinstance(a, ast.Name)}
@@ -712,6 +796,8 @@ class Interp:
                 st.corr.pop(k)
             # projections of / policy results about an overwritten variable die
             for k in [k for k, x in st.env.items() if isinstance(x, V) and x.tag in ('proj', 'polres') and x.b == target.id and k != target.id]:
+                st.env.pop(k)
+            for k in [k for k, x in st.env.items() if isinstance(x, V) and x.tag == 'retsplit' and x.a[0] == target.id and k != target.id]:
                 st.env.pop(k)
         elif isinstance(target, (ast.Tuple, ast.List)):
             for i, t in enumerate(target.elts):
@@ -833,6 +919,16 @@ class Interp:
             l, op, r = test.left, test.ops[0], test.comparators[0]
             lv = self.ev_quiet(l, st)
             rv = self.ev_quiet(r, st)
+            if isinstance(r, ast.Constant) and r.value is None and isinstance(lv, V) and lv.tag == 'retsplit' and isinstance(op, (ast.Is, ast.IsNot, ast.Eq, ast.NotEq)):
+                cv, nn, on = lv.a
+                isnone_branch = isinstance(op, (ast.Is, ast.Eq)) == pol
+                cur = env.get(cv)
+                if isinstance(cur, Name):
+                    names = cur.names & (nn if isnone_branch else on)
+                    if not names:
+                        return None
+                    env[cv] = Name(names, cur.client)
+                return st
             if isinstance(r, ast.Constant) and r.value is None and isinstance(lv, V) and lv.tag == 'const' and isinstance(op, (ast.Is, ast.IsNot, ast.Eq, ast.NotEq)):
                 isnone = lv.a is None
                 want = isinstance(op, (ast.Is, ast.Eq)) == pol
@@ -989,7 +1085,11 @@ class Interp:
             elif exc is not None:
                 nm = dotted(exc)
             caught_locally = bool(node.tries)
-            self.ev_event('raise', s, exc=nm, state=st.summary(), in_handler=bool(node.handlers), in_try=caught_locally)
+            parts = []
+            if isinstance(exc, ast.Call):
+                for a in list(exc.args) + [k.value for k in exc.keywords]:
+                    parts += self.secret_parts(a, st)
+            self.ev_event('raise', s, exc=nm, state=st.summary(), in_handler=bool(node.handlers), in_try=caught_locally, secrets=parts)
             return st
         if isinstance(s, ast.Delete):
             for t in s.targets:
